@@ -1,5 +1,176 @@
-import XlVerif.Base
-/-! Driver for C15 (stub: replaced when the property's model is built). -/
+import XlVerif.Model.C15
+import XlVerif.Spec.C15
+/-!
+  Driver for C15.  Requests (fields after the property id):
+
+  * `split <T:text>`                         → `impl=<op>|<rest>`            (regex split, model)  `spec=<op>|<rest>`
+  * `parse <T:text>`                         → `impl=<OP>|<ordering>|<S>`    `spec=<OP>|<cls>` or `-`
+  * `countif <crit S> <A:cells>`             → `impl=<Res>` `spec=<I:n|->` `mask=<0/1…|->`
+  * `countifs <A:range1> <crit1 S> <A:rest>` → `impl=<Res>` `spec=<I:n|->`
+  * `match <key S> <A:rows> <mt S>`          → `impl=<Res>` `spec=<I:p|E:NA|->`
+  * `vlookup <key S> <A:rows> <col S> <B:rl>`→ `impl=<Res>` `spec=<S|E:NA|ERR|->`
+  * `choose <index S> <A:values>`            → `impl=<Res>` `spec=<S|E:VALUE|->`
+
+  `spec=-` means: the statement does not constrain this input.
+-/
 namespace XlVerif.Drv.C15
-def handle (_fields : List String) : String := "error=not-implemented"
+open XlVerif XlVerif.Model.Value XlVerif.Model.C15 XlVerif.Spec.C09
+
+def resWire : Res → String
+  | .ok v => v.wire
+  | .crash k => "X:" ++ k.wire
+  | .unmodelled => "U"
+
+def opWire : BinOp → String
+  | .eq => "EQ" | .ne => "NE" | .lt => "LT" | .le => "LE" | .gt => "GT" | .ge => "GE"
+  | .add => "ADD" | .sub => "SUB" | .mul => "MUL" | .div => "DIV"
+
+def sopWire : Spec.C15.Op → String
+  | .eq => "EQ" | .ne => "NE" | .lt => "LT" | .le => "LE" | .gt => "GT" | .ge => "GE"
+
+def clsWire : Cls → String
+  | .number q => "n:" ++ ratWire q
+  | .text u => "t:" ++ textWire u
+  | .logical b => if b then "b:1" else "b:0"
+
+def rowsOfWire? (w : String) : Option (List (List S)) :=
+  match V.ofWire? w with
+  | some (.arr rows) => some rows
+  | _ => none
+
+def flatOfWire? (w : String) : Option (List S) := (rowsOfWire? w).map List.flatten
+
+/-- the criterion a (typed) criteria argument denotes in the statement -/
+def specCrit (crit : S) : Option (Spec.C15.Op × Cls) :=
+  match crit with
+  | .text s => Spec.C15.critOfText s
+  | c => (cls c).map fun k => (Spec.C15.Op.eq, k)
+
+def chunks (n : Nat) (fuel : Nat) (l : List S) : Option (List (List S × S)) :=
+  match fuel with
+  | 0 => none
+  | fuel + 1 =>
+    if l = [] then some [] else
+    let r := l.take n
+    match l.drop n with
+    | [] => none
+    | c :: more => if r.length = n then (chunks n fuel more).map ((r, c) :: ·) else none
+
+def specCountifs (range1 : List S) (crit1 : S) (rest : List S) : String :=
+  match chunks range1.length (rest.length + 1) rest with
+  | none => "-"
+  | some more =>
+    let pairs := (range1, crit1) :: more
+    let conv : Option (List (List Cls × Spec.C15.Op × Cls)) :=
+      pairs.mapM fun (r, c) => do
+        let col ← r.mapM cls
+        let (o, k) ← specCrit c
+        pure (col, o, k)
+    match conv with
+    | some ps => (S.num (.int (Spec.C15.countifs range1.length ps))).wire
+    | none => "-"
+
+def wholeNum? : S → Option Int
+  | .num (.int z) => some z
+  | .num (.flt q) => if q.den = 1 then some q.num else none
+  | _ => none
+
+def handle (fields : List String) : String :=
+  match fields with
+  | ["split", t] =>
+    (match S.ofWire? t with
+     | some (.text s) =>
+       let (o, r) := regexSplit genAlts s
+       let (so, sr) := Spec.C15.splitOp s
+       kv [("impl", textWire o ++ "|" ++ textWire r), ("spec", textWire so ++ "|" ++ textWire sr)]
+     | _ => "error=bad-args")
+  | ["parse", t] =>
+    (match S.ofWire? t with
+     | some (.text s) =>
+       let impl := match parseText Ext.none s with
+         | some c => opWire c.op ++ "|" ++ (if c.ordering then "1" else "0") ++ "|" ++ c.value.wire
+         | none => "U"
+       let spec := match Spec.C15.critOfText s with
+         | some (o, k) => sopWire o ++ "|" ++ clsWire k
+         | none => "-"
+       kv [("impl", impl), ("spec", spec)]
+     | _ => "error=bad-args")
+  | ["countif", c, cells] =>
+    (match S.ofWire? c, flatOfWire? cells with
+     | some crit, some l =>
+       let impl := resWire (COUNTIF Ext.none l crit)
+       let (spec, mask) : String × String :=
+         match specCrit crit, l.mapM cls with
+         | some (o, k), some cs =>
+           ((S.num (.int (Spec.C15.countif o k cs))).wire,
+            String.join (cs.map fun x => if Spec.C15.holds o k x then "1" else "0"))
+         | _, _ => ("-", "-")
+       kv [("impl", impl), ("spec", spec), ("mask", mask)]
+     | _, _ => "error=bad-args")
+  | ["countifs", r1, c1, rest] =>
+    (match flatOfWire? r1, S.ofWire? c1, flatOfWire? rest with
+     | some range1, some crit1, some more =>
+       kv [("impl", resWire (COUNTIFS Ext.none range1 crit1 more)), ("spec", specCountifs range1 crit1 more)]
+     | _, _, _ => "error=bad-args")
+  | ["match", k, rows, mt] =>
+    (match S.ofWire? k, rowsOfWire? rows, S.ofWire? mt with
+     | some key, some rs, some m =>
+       let impl := resWire (MATCH key rs m)
+       let spec : String :=
+         if rs.any (fun r => r.length ≠ 1) then "-" else
+         match cls key, rs.flatten.mapM cls with
+         | some kk, some cs =>
+           if m = .num (.int 0) then
+             (match Spec.C15.matchExact kk cs with
+              | some p => (S.num (.int p)).wire
+              | none => "E:NA")
+           else if m = .num (.int 1) then
+             if Spec.C15.ascending cs then
+               (match Spec.C15.lastLe kk cs with
+                | 0 => "E:NA"
+                | p => (S.num (.int p)).wire)
+             else "-"
+           else "-"
+         | _, _ => "-"
+       kv [("impl", impl), ("spec", spec)]
+     | _, _, _ => "error=bad-args")
+  | ["vlookup", k, rows, col, rl] =>
+    (match S.ofWire? k, rowsOfWire? rows, S.ofWire? col, S.ofWire? rl with
+     | some key, some rs, some (.num cn), some (.bool r) =>
+       let impl := resWire (VLOOKUP key rs cn r)
+       let spec : String :=
+         match rs with
+         | [] => "-"
+         | r0 :: _ =>
+           if r || r0 = [] || rs.any (fun x => x.length ≠ r0.length) then "-" else
+           match cls key, rs.mapM (fun row => (cls (row.headD .blank)).map fun kk => (kk, row)), wholeNum? (.num cn) with
+           | some kk, some prs, some c =>
+             (match Spec.C15.vlookup kk prs r0.length c with
+              | .value v => v.wire
+              | .na => "E:NA"
+              | .colError => "ERR")
+           | _, _, _ => "-"
+       kv [("impl", impl), ("spec", spec)]
+     | _, _, _, _ => "error=bad-args")
+  | ["choose", i, vals] =>
+    (match S.ofWire? i, flatOfWire? vals with
+     | some idx, some vs =>
+       let impl := resWire (CHOOSE Ext.none idx vs)
+       let spec : String :=
+         if vs.length > 254 then "-" else
+         match idx with
+         | .num n =>
+           let q := n.toRat
+           -- whole index: the statement; fractional index inside [1, n]: the value at the truncated
+           -- position; below 1: outside 1..n; between n and n+1: not constrained
+           if q < 1 then "E:VALUE"
+           else if q > vs.length then (if q.den = 1 then "E:VALUE" else if q < vs.length + 1 then "-" else "E:VALUE")
+           else (match Spec.C15.choose q.floor vs with
+                 | some v => v.wire
+                 | none => "E:VALUE")
+         | _ => "-"
+       kv [("impl", impl), ("spec", spec)]
+     | _, _ => "error=bad-args")
+  | _ => "error=bad-request"
+
 end XlVerif.Drv.C15
